@@ -205,6 +205,15 @@ pub fn run(ctx: &Ctx) -> Rep {
     let n6 = r6.distinct;
     rep.merge(r6);
     let s7 = par_subsets::<7, X, _, _>(ctx, us, mk, |st, c, _| {
+        // every hand with six or more cards of one suit (274,560 hands; the ones whose value is most sensitive
+        // to which suit it is) under the three shifts in 8 seeded slot orders, whatever the sampling below decides
+        if drive::max_suit_count(c) >= 6 && !ctx.smoke() {
+            let mut rng = Rng::new(seed, drive::hand_code(c) ^ 0x8A8A);
+            for _ in 0..8 {
+                let p = permuted(c, &mut rng);
+                check_value_shift(st, &p);
+            }
+        }
         if !selected(c, seed, 0x88, rate7) {
             return;
         }
